@@ -178,7 +178,11 @@ func (f *File) put(p []byte) {
 		if f.off > len(f.n.data) {
 			f.n.data = append(f.n.data, make([]byte, f.off-len(f.n.data))...)
 		}
-		f.n.data = append(f.n.data[:f.off], p...)
+		// POSIX write: overwrite in place, extend if needed, keep whatever lies beyond
+		if end := f.off + len(p); end > len(f.n.data) {
+			f.n.data = append(f.n.data, make([]byte, end-len(f.n.data))...)
+		}
+		copy(f.n.data[f.off:], p)
 		f.off += len(p)
 	}
 }
@@ -275,6 +279,64 @@ func (f *File) ReadDir(n int) ([]fs.DirEntry, error) {
 }
 
 func (f *File) Chmod(mode fs.FileMode) error { probe("File.Chmod"); return nil }
+
+// ReadAt / WriteAt: positional I/O on regular files; one I/O step each (same fault kinds as Read / Write).
+func (f *File) ReadAt(p []byte, off int64) (int, error) {
+	if f == nil {
+		return 0, os.ErrInvalid
+	}
+	seq, flt, fi := w.step()
+	if f.closed || !f.rd || f.std != 0 || f.n.kind == 'd' || off < 0 {
+		err := pathErr("read", f.name, syscall.EBADF)
+		w.done(seq, "read", f.name, 0, err, flt, fi, false)
+		return 0, err
+	}
+	if e := faultErrno(flt); e != 0 {
+		err := pathErr("read", f.name, e)
+		w.done(seq, "read", f.name, 0, err, flt, fi, true)
+		return 0, err
+	}
+	if flt != nil && flt.Kind == "eof" || int(off) >= len(f.n.data) {
+		w.done(seq, "read", f.name, 0, io.EOF, flt, fi, flt != nil && flt.Kind == "eof")
+		return 0, io.EOF
+	}
+	n := copy(p, f.n.data[off:])
+	var err error
+	if n < len(p) {
+		err = io.EOF
+	}
+	w.done(seq, "read", f.name, n, err, flt, fi, false)
+	return n, err
+}
+
+func (f *File) WriteAt(p []byte, off int64) (int, error) {
+	if f == nil {
+		return 0, os.ErrInvalid
+	}
+	if f.std != 0 || f.app || off < 0 {
+		return 0, pathErr("write", f.name, syscall.EINVAL)
+	}
+	save := f.off
+	f.off = int(off)
+	n, err := f.Write(p)
+	f.off = save
+	return n, err
+}
+
+func (f *File) Readdirnames(n int) ([]string, error) {
+	ents, err := f.ReadDir(n)
+	var out []string
+	for _, e := range ents {
+		out = append(out, e.Name())
+	}
+	return out, err
+}
+
+func (f *File) Chown(uid, gid int) error { probe("File.Chown"); return nil }
+
+func (f *File) SetDeadline(t time.Time) error      { return pathErr("SetDeadline", f.name, syscall.ENOTSUP) }
+func (f *File) SetReadDeadline(t time.Time) error  { return pathErr("SetDeadline", f.name, syscall.ENOTSUP) }
+func (f *File) SetWriteDeadline(t time.Time) error { return pathErr("SetDeadline", f.name, syscall.ENOTSUP) }
 
 // ---- os package level --------------------------------------------------------------
 
